@@ -372,7 +372,7 @@ inline void parse_args(int argc, char** argv) {
 
 inline void heartbeat() {
     State& s = st();
-    if (s.progress) s.progress[1] = s.progress[1] + 1;
+    if (s.progress) __atomic_fetch_add(const_cast<uint64_t*>(&s.progress[1]), 1, __ATOMIC_RELAXED);
 }
 
 // Runs cases [from, to). Returns the process exit code (0 always unless the
@@ -388,7 +388,7 @@ inline int run_cases(int argc, char** argv, uint64_t default_total, const case_f
     for (uint64_t i = from; i < to; ++i) {
         if (hang_counter().load() >= 3) { s.counters["cases_skipped_after_hangs"] += to - i; break; }
         s.current_case = i;
-        if (s.progress) { s.progress[0] = i; s.progress[1] = s.progress[1] + 1; }
+        if (s.progress) { __atomic_store_n(const_cast<uint64_t*>(&s.progress[0]), i, __ATOMIC_RELAXED); __atomic_fetch_add(const_cast<uint64_t*>(&s.progress[1]), 1, __ATOMIC_RELAXED); }
         s.case_desc[0] = 0;
         Rng rng{s.seed, i};
         try {
